@@ -54,8 +54,11 @@ class RuleResult:
 
     def violation(self, key: List[str], message: str, file: str = "", line: int = 0, chain: Optional[List[str]] = None,
                   site: Optional[str] = None):
-        self.instances.append(Instance(self.rule, site or " :: ".join(key), "violation", message, True))
-        self.findings.append(Finding(self.rule, [str(k) for k in key], message, file, line, chain or []))
+        k = [str(x) for x in key]
+        if any(f.rule == self.rule and f.key == k for f in self.findings):
+            return  # one finding per (rule, key): several resolution targets of one site are one construct
+        self.instances.append(Instance(self.rule, site or " :: ".join(k), "violation", message, True))
+        self.findings.append(Finding(self.rule, k, message, file, line, chain or []))
 
     def require(self, cond: bool, what: str):
         """instance floors and anchors: failing one means the *analyser* cannot answer"""
